@@ -75,7 +75,8 @@ Tick(d) == clock' = clock + d /\ hist' = Append(hist, Ev("tick", 0, 0, "absent",
 Cookies == -1..(next - 1)
 Next == \/ \E c \in Cookies : Safe(c)
         \/ \E c \in Cookies, p \in Cookies, o \in OriginClasses, https \in BOOLEAN, r \in RefererClasses :
-              /\ (r # "absent" => (https /\ o \in {"absent", "null"}))      \* the Referer only matters then; keep the space small
+              \* every Origin class meets every Referer class on both schemes: the Referer vouches only when it is consulted (https, no
+              \* usable Origin) -- next to a foreign Origin, or on http, it changes nothing
               /\ (c # p => o = "same")                                      \* token swaps / forgeries from the same origin only
               /\ (c = p => c # 0)
               /\ Unsafe(c, p, o, https, r)
